@@ -412,6 +412,17 @@ func flagWalk(p *Program, fn *ssa.Function, seeds map[ssa.Value]bool, depth int,
 		if !derived[cond] {
 			continue
 		}
+		// a test of a flag's value, or of the switch computed from the flags —
+		// not the bound of the loop that walks them
+		switch x := cond.(type) {
+		case *ssa.Phi, *ssa.Parameter, *ssa.Call:
+		case *ssa.BinOp:
+			if x.Op != token.EQL && x.Op != token.NEQ {
+				continue
+			}
+		default:
+			continue
+		}
 		ctx.decisions++
 		for _, side := range b.Succs {
 			if len(side.Preds) != 1 {
@@ -945,11 +956,12 @@ func ruleFoldAgree(p *Program, r *Reporter) {
 	var fl *ast.FuncLit
 	for _, f := range vmPk.Syntax {
 		ast.Inspect(f, func(n ast.Node) bool {
-			lit, ok := n.(*ast.FuncLit)
-			if !ok {
+			body, _ := callbackBody(info, n)
+			if body == nil {
 				return true
 			}
-			for _, st := range lit.Body.List {
+			lit, _ := n.(*ast.FuncLit)
+			for _, st := range body.List {
 				s, ok := st.(*ast.SwitchStmt)
 				if !ok || s.Tag == nil {
 					continue
